@@ -31,6 +31,12 @@ def Obs.sized (o : Obs) : Bool :=
    | none => false
    | some b => b.polls == o.polls && b.size == o.polls.length)
 
+/-- what must hold whenever nobody is inside `Pick` – whatever the status, whatever happened before (injected
+`openPoll` failures included): no poller is left behind.  The slice holds distinct pollers, none of them closed,
+and the census of open pollers is exactly the slice: a poller that was opened and is in no slice has been closed. -/
+def Obs.noStray (o : Obs) : Bool :=
+  o.live == o.polls.length && o.polls.Nodup && o.polls.all (fun id => !o.closed.contains id) && o.closed.Nodup
+
 /-- a returned poller: in the current slice at the reported index, not closed -/
 def Obs.retOK (o : Obs) (id : Nat) (idx : Int) : Bool :=
   decide (0 ≤ idx) && o.polls[idx.toNat]? == some id && !o.closed.contains id
